@@ -1010,6 +1010,9 @@ _LI = "skfem/mesh/mesh_line_1.py"
 _TE = "skfem/mesh/mesh_tet_1.py"
 _SETD = "np.setdiff1d(np.unique(new_t[:, ixs]), [-1])"
 MUTANTS = [
+    ("line: midpoints numbered from max(t) + 1 again",
+     (_LI, "        mid = np.arange(len(marked)) + p.shape[1]",
+      "        mid = np.arange(len(marked)) + np.max(t) + 1"), "C13-R2"),
     ("tet children record the split cell instead of its ancestor",
      (_TE, "            parent[nt:(nt + nm)] = parent[marked]",
       "            parent[nt:(nt + nm)] = marked"), "C13-R5"),
